@@ -311,3 +311,28 @@ def impl_fn(w, adt, trait, method, crate="vaporetto", hand_written=None):
                 if it_.endswith("::" + method):
                     return it_, i
     return None, None
+
+
+def world_for(chk):
+    chk.configs.add(chk.config)
+    return facts.world(chk.config)
+
+
+ALLF = ["std", "cache-type-score", "fix-weight-length", "charwise-pma", "tag-prediction"]
+
+
+def fcfg(drop=(), add=()):
+    return "F:" + ",".join([f for f in ALLF if f not in drop] + list(add))
+
+
+NO_CHARWISE = fcfg(["charwise-pma"])
+NO_CACHE = fcfg(["cache-type-score"])
+NO_FIX = fcfg(["fix-weight-length"])
+NO_TAG = fcfg(["tag-prediction"])
+MINIMAL = "F:"
+SIMD = fcfg(add=["portable-simd"])
+
+
+def tyn(s):
+    """type spelling independent of std / alloc / core (no_std configurations print alloc:: paths)"""
+    return _re.sub(r"\b(std|alloc|core)::", "S::", s or "")
